@@ -1282,6 +1282,17 @@ theorem stepCore_inv (c : Cfg) (hs : c.Sound) (s : St) (op : Op) (hi : Inv s) : 
       exact absurd hcond.2 (by decide)
     · exact hi
 
+  | failent m des =>
+    simp only [stepCore]
+    split
+    · exact allocObj_inv s .ent m des [] (by decide) hi
+    · exact hi
+  | failside m des =>
+    simp only [stepCore]
+    split
+    · exact allocObj_inv s .face m des [] (by decide) hi
+    · exact hi
+
 theorem step_inv (c : Cfg) (hs : c.Sound) (s : St) (op : Op) (hi : Inv s) : Inv (step c s op) :=
   collect_inv c hs.2.2.1 _ (stepCore_inv c hs s op hi)
 
